@@ -10,6 +10,9 @@ delta/*  (obligation a): the RIB side of a successful reload.  Old and new confi
               session up: the `_neighbor` hand-over, i.e. replace_reload at the top of the _main loop)
               or Peer.reestablish (neighbor changed): teardown, reset_rib, replace_restart(previous, current).
          After the drain: peer table == cached_routes() == new configuration + still-valid API routes.
+         NOTE (design finding F4a): replace_reload() alone keys on the prefix and would not re-announce a route whose
+         attributes changed; in the real flow step 1 already queued it (not in_cache), so F4a does not occur.  The
+         mutation "skip step 1" makes the check report C17:delta:changed-attributes-not-reannounced.
 fault/*  (obligation b) is appended by units() below.
 """
 from __future__ import annotations
@@ -52,7 +55,8 @@ ASSUMPTIONS = [
 BOUNDS = {
     'quick': {'delta': '(old,new,API ops) in {(0,1,0),(1,0,1),(1,1,1),(2,1,1),(1,2,1),(2,2,0)}, prefix octet symbolic in 0..2, '
                        '3 attribute sets (MED 10 / MED 20 / MED 10 with another next hop); session up / down / re-established; '
-                       'queue flushed / unsent / one message sent before the reload'},
+                       'queue flushed / unsent / one message sent before the reload; delta/watchdog: 1 old + 2 new routes '
+                       '(distinct prefixes), each new route optionally declared `watchdog w1 withdraw`'},
     'thorough': {'delta': 'adds (2,2,1),(1,1,2),(3,2,0),(2,3,0) and (3,3,0) with 2 attribute sets'},
 }
 OUTSIDE = [
